@@ -33,8 +33,12 @@ trusted runtime residue.  The theorems below discharge that residue down to the 
 5. `println!` in W does not panic (stdout stays open) — a panicking W would still be joined (`_ = write_handle.join()`).
 6. The `AtomicBool` of the `CancellationToken` is set once and never reset; S reads it only inside `analyze_iterative`.
 7. Scheduling is weakly fair for unblocked threads, and a search whose flag is set returns: the `Relaxed` store becomes
-   visible to the loading thread, and some iteration reaches a poll (C04: `C04_stop_bound` bounds the counted nodes per
-   worker and iteration; that some iteration reaches a poll is C04's stated hypothesis, S3 in DESIGN §0.3).
+   visible to the loading thread, and a poll is reached (C04: `C04_stop_bound` bounds the counted nodes per worker and
+   iteration; since the repair of F11 every iteration boundary is a poll, so a poll IS reached after at most one more
+   iteration of fewer than `workers × 10000` counted nodes and the search then ends —
+   `C04_stop_ends_within_one_iteration`, `C04_stop_total_bound`, `C04_unlimited_stop_independent_of_fuel` in
+   `Wee/Props/C04Stop.lean`; before the repair "some iteration reaches a poll" was a hypothesis, false on the witness
+   `C04_F11_old_loop_never_stops`).  What remains assumed is that a finite number of counted nodes takes finite time.
    These are the fairness assumptions `Act.fair` of the three liveness theorems (`Threads_wait_cancel_ends`,
    `Threads_wait_cancel_returns`, `Threads_search_answers`) and of nothing else; every other theorem is a safety
    theorem about every reachable state and needs no fairness.
